@@ -1,9 +1,9 @@
 (* The two-goroutine copy pair joining two bidirectional connections X (downstream) and Y (upstream):
 
-     TCPProxy.forward   /repo/server/proxy/tcpproxy.go:99-119
-     Forwarder.forward  /repo/client/forwarder.go:105-137
-     Server.forward     /repo/agent/tcpproxy/server.go:141-160
-     forwardConn        /repo/forward/forwarder.go:89-116
+     TCPProxy.forward   /repo/server/proxy/tcpproxy.go:95-115
+     Forwarder.forward  /repo/client/forwarder.go:82-130
+     Server.forward     /repo/agent/tcpproxy/server.go:132-152
+     forwardConn        /repo/forward/forwarder.go:66-112
 
      go func() { defer wg.Done(); defer Y.Close(); io.Copy(Y, X) }()      -- copier A
      go func() { defer wg.Done(); defer X.Close(); io.Copy(X, Y) }()      -- copier B
